@@ -46,3 +46,30 @@ pub fn ctl_sorted_by_value(v: &mut Vec<Keyed>) {
         _ => Ordering::Equal,
     });
 }
+
+fn descending_keys(a: &Keyed, b: &Keyed) -> Ordering {
+    match (a, b) {
+        (Keyed::Assoc(k1, _), Keyed::Assoc(k2, _)) => k2.cmp(k1),
+        (Keyed::Assoc(_, _), _) => Ordering::Less,
+        (_, Keyed::Assoc(_, _)) => Ordering::Greater,
+        _ => Ordering::Equal,
+    }
+}
+
+fn ascending_keys(a: &Keyed, b: &Keyed) -> Ordering {
+    match (a, b) {
+        (Keyed::Assoc(k1, _), Keyed::Assoc(k2, _)) => k1.cmp(k2),
+        (Keyed::Assoc(_, _), _) => Ordering::Less,
+        (_, Keyed::Assoc(_, _)) => Ordering::Greater,
+        _ => Ordering::Equal,
+    }
+}
+
+/// the comparator is a named function, not a closure
+pub fn ctl_named_descending(v: &mut Vec<Keyed>) {
+    v.sort_by(descending_keys);
+}
+
+pub fn ok_named_ascending(v: &mut Vec<Keyed>) {
+    v.sort_by(ascending_keys);
+}
